@@ -35,7 +35,7 @@ class Engine(EngineBase):
 
     def stubs(self):
         return super().stubs() + ["processes = baton-passing thread actors, one runs at a time",
-                                  "RLock -> SimRLock with per-process ownership"]
+                                  "RLock -> SimRLock with per-process ownership; synced_collections per-file lock table -> table that re-creates entries another simulated process moved"]
 
     def generate(self, rng, tier):
         knobs = {"listing": rng.choice(["shuffle", "sorted"]), "chunk": rng.choice(["none", "split2", "small"]),
@@ -100,7 +100,7 @@ class Engine(EngineBase):
     def execute(self, sc, ctx):
         import signac
 
-        install_locks()
+        install_locks(shared_interpreter=True)
         install_pools(2)
         res = {"violations": [], "keys": [], "ikeys": [], "stats": {"faults": {}, "probes": {}, "variants": 0},
                "nontrivial": False}
